@@ -20,14 +20,14 @@ import (
 // receives those replies within a short bounded time, no matter how many further requests it keeps sending.
 
 type c09Case struct {
-	GapUs     int   `json:"send_gap_us"`  // pause between requests (open loop: never waits for replies)
-	DurMs     int   `json:"duration_ms"`  // how long the client keeps sending
-	LatMs     []int `json:"latencies_ms"` // backend latency pattern, applied round robin
-	Nodes     int   `json:"nodes"`        // keys spread over this many nodes
-	SplitEach int   `json:"split_every"`  // every n-th request is a split MGET over two nodes (0 = never)
-	Second    bool  `json:"second_client"`
-	Burst     int   `json:"burst_behind_slow_head,omitempty"` // >0: a head request answered after 300 ms, this many fast requests right behind it, then silence
-	SlowPartnerMs int `json:"slow_partner_ms,omitempty"`      // >0: four clients each send GET a; MGET a c in one write, node C answers this late: GET's reply must not wait for the MGET
+	GapUs         int   `json:"send_gap_us"`  // pause between requests (open loop: never waits for replies)
+	DurMs         int   `json:"duration_ms"`  // how long the client keeps sending
+	LatMs         []int `json:"latencies_ms"` // backend latency pattern, applied round robin
+	Nodes         int   `json:"nodes"`        // keys spread over this many nodes
+	SplitEach     int   `json:"split_every"`  // every n-th request is a split MGET over two nodes (0 = never)
+	Second        bool  `json:"second_client"`
+	Burst         int   `json:"burst_behind_slow_head,omitempty"` // >0: a head request answered after 300 ms, this many fast requests right behind it, then silence
+	SlowPartnerMs int   `json:"slow_partner_ms,omitempty"`        // >0: four clients each send GET a; MGET a c in one write, node C answers this late: GET's reply must not wait for the MGET
 }
 
 const c09Delta = time.Second
